@@ -232,7 +232,7 @@ def run(ctx):
         ctx.exact("R14.2", "send sites in cancelInvoke", len(snd), 1)
         for r in rem:
             for s in snd:
-                fa = bflow.format_args(ci, s["a"][1])
+                fa = bflow.format_args(ci, hirq.resolve(ci, s["a"][1], NO_T))  # inline or hoisted into a `let`
                 ok = term(ci, r["a"][0]) == ("param", 2) and dominates_hir(ci, r, s) and not guard_terms(ci, r)
                 okt = len(fa) == 2 and fa[0] == ("def", "event_io_processor::scxml_event_io_processor::SCXML_TARGET_SESSION_ID_PREFIX") and fa[1] == ("param", 3) and \
                     const_eval(peel(s["a"][0], NO_T), F) == "scxml"
